@@ -322,3 +322,9 @@ CHECKS['C18']['text'] += (
     "(the structural definition of the property) then, for every configuration, every state satisfying SrvInv and Who, every oracle and ANY number of events, every node of K keeps exactly its server objects and each of those customers is still at its node with an "
     "untouched record: a structural deadlock is genuine; deadlocked_b_iff ties it to Sub/Deadlock.v's pruning computation. K3: Knot.deadlocked_b (extracted, dispatch 39) is evaluated on the real engine's snapshots of every simulate_until_deadlock run "
     "(encoded as engine-model states) and must agree with the verdict at that frame, and the hypotheses of the permanence theorem must hold there.")
+CHECKS['C03']['text'] += (
+    " T2 on the STAGE-2 engine model (Inv/Journey2.v, 3 880 lines; Properties/C03_stage2.v): event_step_jrn2 / engine_journey2 / Jrn2_means with the stage-2 record types (a visit-closing record = service, renege, or an interruption record with a destination; "
+    "an interruption record without destination continues the visit: same node, same arrival date): first record at the arrival node, every closing record names the node of the next record and ends when that visit began, baulk / rejection records are the only record, "
+    "a customer in node k has a last closing record naming k ending at its arrival date there, at the exit iff the last record names -1 or is a baulk / rejection - in the executable scope Journey2.scope2 (all routers, reneging + jockeying, blocking, non-pre-emptive "
+    "schedules, slots, class change; priority pre-emption resume / restart / resample where no node has a capacity); journey_refuted_preempt_blocked is a closed witness of F-02a outside it (a service record naming node 3 directly followed by a record at node 2). "
+    "jrn2_b (sound) is evaluated on every in-scope real snapshot visited TOGETHER WITH the real cumulative record history and arrival nodes (dispatch 40).")
